@@ -1,0 +1,11 @@
+//go:build !verif
+
+package j5schema
+
+// verifhook marks the points at which SchemaCache touches state shared between
+// callers. In a normal build At is an empty method which the compiler removes.
+type verifhookT struct{}
+
+var verifhook verifhookT
+
+func (verifhookT) At(string) {}
